@@ -1846,6 +1846,13 @@ class GeneratorLoops:
                         elif isinstance(par, ast.FunctionDef):
                             if par.body[-1] is not ch:
                                 post = True
+                        elif isinstance(par, ast.If):
+                            # the other branch must not fall through (a context manager that does not yield is an error, not an empty block)
+                            mine, other = (par.body, par.orelse) if any(x is ch for x in par.body) else (par.orelse, par.body)
+                            if not other or not isinstance(other[-1], ast.Raise):
+                                okc = False
+                            elif mine[-1] is not ch:
+                                post = True
                         else:
                             okc = False
                     if okc:
@@ -2177,6 +2184,32 @@ def _canon_super(tree):
     return changed
 
 
+def _module_lambdas_to_defs(tree):
+    """_name = lambda a, b: E   at module level (private, bound once)   ->   def _name(a, b): return E"""
+    counts = {}
+    for n in ast.walk(tree):
+        if isinstance(n, ast.Name) and isinstance(n.ctx, (ast.Store, ast.Del)):
+            counts[n.id] = counts.get(n.id, 0) + 1
+        elif isinstance(n, (ast.FunctionDef, ast.ClassDef)):
+            counts[n.name] = counts.get(n.name, 0) + 1
+        elif isinstance(n, ast.arg):
+            counts[n.arg] = counts.get(n.arg, 0) + 1
+        elif isinstance(n, (ast.Global, ast.Nonlocal)):
+            for x in n.names:
+                counts[x] = counts.get(x, 0) + 2
+    changed = False
+    for i, st in enumerate(tree.body):
+        if isinstance(st, ast.Assign) and len(st.targets) == 1 and isinstance(st.targets[0], ast.Name) and isinstance(st.value, ast.Lambda):
+            nm = st.targets[0].id
+            if nm.startswith('_') and not nm.startswith('__') and counts.get(nm, 0) == 1:
+                fn = ast.FunctionDef(name=nm, args=st.value.args, body=[ast.Return(value=st.value.body)], decorator_list=[], returns=None, type_params=[])
+                ast.copy_location(fn, st)
+                ast.fix_missing_locations(fn)
+                tree.body[i] = fn
+                changed = True
+    return changed
+
+
 def _split_chained_assignments(tree):
     """a = b = E  ->  a = E ; b = a        (plain names; E is evaluated once, the targets are bound left to right)"""
     class T(ast.NodeTransformer):
@@ -2280,6 +2313,7 @@ def normalize_module(tree, modname):
     _expand_private_contextmanagers(tree)
     _private_generators_to_lists(tree)
     spell.visit(tree)
+    _module_lambdas_to_defs(tree)
     apply_simple_decorators(tree)
     inl = Inliner(tree)
     inl.after_run = gl.splice
